@@ -111,13 +111,16 @@ def run(repo: Repo, tier: str) -> Report:
         return isinstance(t, ast.Subscript) and isinstance(t.value, ast.Name) and t.value.id == yy and isinstance(t.slice, ast.Name) \
             and t.slice.id == ii
 
-    S, A = [], []
+    S, A, WHOLE = [], [], []
     for n in cfg.stmt_nodes():
         st = n.stmt
         if n.kind != "stmt":
             continue
         if isinstance(st, ast.Assign) and is_cell(st.targets[0]) and isinstance(st.value, ast.Name) and st.value.id == nodata:
             S.append(n)
+        elif isinstance(st, ast.Assign) and isinstance(st.targets[0], ast.Subscript) and isinstance(st.targets[0].value, ast.Name) \
+                and st.targets[0].value.id == yy and isinstance(st.value, ast.Name) and st.value.id == nodata:
+            WHOLE.append(n)
         elif isinstance(st, ast.AugAssign) and is_cell(st.target) and isinstance(st.op, ast.Add):
             A.append(n)
         elif isinstance(st, ast.Assign) and is_cell(st.targets[0]) and isinstance(st.value, ast.BinOp):
@@ -176,6 +179,33 @@ def run(repo: Repo, tier: str) -> Report:
            just is not None, f"guards of the store: {atoms_raw}", f"guard of {norm_stmt(s.stmt)} @{'/'.join(atoms_raw)[:60]}",
            kind=just or "")
         justs.append(just)
+    # sentinel fills of more than the current cell: admissible only when no position has a complete window (window > length)
+    for wn in WHOLE:
+        okw = False
+        facts = []
+        for g, arm in cfg.guards_of(wn):
+            t = g.stmt.test
+            if arm and isinstance(t, ast.Compare):
+                try:
+                    tag, d = int_cmp(t, Normaliser({"n": parse_expr(f"{xx}.size")} if False else {}))
+                except Unsupported:
+                    continue
+                facts.append((tag, d.key()))
+                # window_size > n  <=>  n - window_size + 1 <= 0   (n = series length under any spelling)
+                for ln in (f"size[{xx}]", f"len0[{xx}]", "n"):
+                    if tag == "le0" and d.equals(Normaliser().norm(parse_expr("LN - WS + 1".replace("WS", ws))) if False else None) if False else False:
+                        pass
+                lens = [Rat.atom(f"size[{xx}]"), Rat.atom(f"len0[{xx}]"), Rat.atom("n")]
+                for L_ in lens:
+                    if tag == "le0" and d.equals(L_ - Rat.atom(ws) + Rat.const(1)):
+                        okw = True
+        ob("R-SENTINEL-ACC", "a sentinel fill of the whole output happens only when no position has a complete window (window > length)", okw,
+           f"`{norm_stmt(wn.stmt)}` runs under {facts}: positions with a complete, fully valid window lose their sum", wn.stmt)
+    early = [n for n in cfg.stmt_nodes() if n.kind == "stmt" and isinstance(n.stmt, ast.Return)]
+    for e in early:
+        pre = [w_ for w_ in WHOLE if e.id in cfg.reachable_from(w_) and w_.stmt.lineno < e.stmt.lineno]
+        ob("R-SENTINEL-ACC", "an early exit leaves a fully written output (sentinel fill under an admissible condition)", bool(pre),
+           "early `return` without a preceding whole-output store", e.stmt)
     ob("R-SENTINEL-ACC", "a complete window without any valid cell yields the sentinel",
        any(j and not j.startswith("prefix") for j in justs),
        "no sentinel store for complete windows: an all-nodata window would keep the initial 0", "sentinel store for complete windows")
